@@ -40,7 +40,7 @@ type forwarder struct {
 }
 
 func newForwarder(target string) (*forwarder, error) {
-	ln, err := net.Listen("tcp", "127.0.0.1:0")
+	ln, err := listenLoopback()
 	if err != nil {
 		return nil, err
 	}
@@ -133,7 +133,7 @@ func startActive(hb time.Duration) (*activeSide, string, error) {
 	hc := &http.Client{Timeout: 2 * time.Second, Transport: &http.Transport{DisableKeepAlives: true}}
 	var lastErr error
 	for attempt := 0; attempt < 8; attempt++ {
-		l, err := net.Listen("tcp", "127.0.0.1:0")
+		l, err := listenLoopback()
 		if err != nil {
 			return nil, "", err
 		}
